@@ -30,6 +30,7 @@ def run(idx: ProgramIndex, rep: Report, tier: str):
         "PLL sums log_marginal. NGD.step adds -lr*num_data*grad. The bound itself and NGD optimality are not decided.")
     rep.rule("C15-1", "ELBO/PLL assembly: +LL/B - beta*KL/N + PRIOR/N - ADDED with the stated provenance of B, N, beta")
     rep.rule("C15-2", "subclasses take expected_log_prob (ELBO) / log_marginal (PLL) of the likelihood, summed over the data axis")
+    rep.rule("C15-4", "no in-place aliasing hazard in the variational objective code (storage/version domain)")
     rep.rule("C15-3", "NGD.step scales the natural-gradient step by num_data and the learning rate, with a minus sign")
     A = idx.find_class("_ApproximateMarginalLogLikelihood")
     fi = idx.method(A, "forward", own=True)
@@ -116,3 +117,9 @@ def run(idx: ProgramIndex, rep: Report, tier: str):
         ok = bool(al) and "self.num_data" in t and "group['lr']" in t.replace('"', "'") and t.replace(" ", "").startswith("-") or (bool(al) and t.replace(" ", "").startswith("(-"))
         ok = ok and "self.num_data" in t and "lr" in t
     rep.add("C15-3", "%s:NGD.step" % G.module.name, st.where, ok, "p += -(lr * num_data) * p.grad" if ok else "NGD.step is not `p.add_(p.grad, alpha=-lr * num_data)`", {})
+
+    from .common_alias import aliasing_obligations
+    funcs = []
+    for cn in ("_ApproximateMarginalLogLikelihood", "VariationalELBO", "PredictiveLogLikelihood", "GammaRobustVariationalELBO", "NGD"):
+        funcs += list(idx.find_class(cn).methods.values())
+    aliasing_obligations(idx, rep, "C15-4", funcs, 6, "variational objective methods interpreted")
